@@ -178,6 +178,15 @@ def main(out_v, out_json):
         classes[tag] = rec
     info["classes"] = classes
 
+    # ---- family tag of every default-trusted name (tagging oracle: harness/families.py)
+    from families import family_tag
+    tags = {}
+    for r in classes.values():
+        for n in r["defaults"] + r["down_extra"]:
+            if n not in tags:
+                tags[n] = family_tag(n)
+    info["family_tags"] = tags
+
     # ---- what the dumpers can emit as "__loader__" (AST scan, fail-closed)
     emits = set()
     io_dir = REPO / "skops" / "io"
@@ -231,6 +240,7 @@ def main(out_v, out_json):
     o.append("Definition classes : list (pstr * (bool * list pstr * list pstr)) := " + clist(
         f"({cstr(tag)}, ({cbool(r['uses_T'])}, {clist((cstr(x) for x in r['defaults']), 'pstr')}, {clist((cstr(x) for x in r['down_extra']), 'pstr')}))"
         for tag, r in classes.items()) + ".")
+    o.append("Definition family_tags : list (pstr * pstr) := " + clist((f"({cstr(n)}, {cstr(t)})" for n, t in tags.items()), "(pstr * pstr)") + ".")
     o.append("Definition unavailable : list pstr := " + clist((cstr(t) for t, r in classes.items() if not r["available"]), "pstr") + ".")
     Path(out_v).write_text("\n".join(o) + "\n")
     Path(out_json).write_text(json.dumps(info, indent=1))
